@@ -12,7 +12,8 @@ def golomb_us(v):
     p, q = v['GP'], v['GQ']
     cap = (8 + q + 1 + p + 7) // 8 + 2
     bs = '9BufStreamILm%dEE' % cap
-    b = max(q + 2, (p + 7) // 8 + 2)
+    b = 8 * cap + 2                    # the unary decode loop can at most consume every bit of the buffer (then the stream throws): generous bound so that a
+                                       # decoder/encoder bug shows up as an assertion violation rather than as an unwinding-bound failure
     fns = ['_ZN15BitStreamReaderI%sE4ReadEi' % bs, '_Z16GolombRiceDecodeI%sEmR15BitStreamReaderIT_Eh' % bs, '_ZL12decode_checkR%smm' % bs.replace('9BufStreamILm', '9BufStreamILm'), '_ZL12decode_checkR%simm' % bs]
     return ','.join('%s.%d:%d' % (f, i, b) for f in fns for i in range(5))
 BL = ['common/bloom.cpp', 'hash.cpp']
@@ -29,7 +30,7 @@ HARNESSES = [
       bounds='nElements 2, 3-5 insertions, 1-2 hash functions, 2-4 data words, 4-byte keys, tweak symbolic', backends=['default', 'cvc5', 'kissat'], **COMMON),
     H('fastrange', 'bloom.cpp', 'h_fastrange', link=BL, unwind=2, functions=['FastRange32'], variants=[{'NBITS': 12}], tvariants=[{'NBITS': 12}, {'NBITS': 20}], bounds='all 32-bit x, 0<n<2^12 (thorough 2^20)', backends=['default', 'cvc5int', 'z3', 'kissat'], **COMMON),
 ] + [
-    H(name, 'golomb.cpp', 'h_golomb', link=[], variants=qv, tvariants=tv, unwind=max(max(v['GP'], v['GQ']) for v in tv + qv) + 4, unwindset=golomb_us,
+    H(name, 'golomb.cpp', 'h_golomb', link=[], variants=qv, tvariants=tv, unwind=max(max(v['GP'], v['GQ']) for v in tv + qv) + 4, unwindset=golomb_us, objbits=11,
       functions=['GolombRiceEncode', 'GolombRiceDecode', 'BitStreamWriter::Write/Flush', 'BitStreamReader::Read'],
       bounds='Rice parameter P and quotient range per variant; every start bit offset 0..7 (step GOSTEP) x every quotient GQ0..GQ; remainder and preceding bits fully symbolic', **COMMON)
     for name, qv, tv in (
